@@ -110,7 +110,7 @@ PROPS = {
     ),
     'C02': dict(
         title='Hayson encode -> decode returns the original value',
-        verus=[('u_getters', [r'^parse_ref$', r'^parse_symbol$', r'^parse_uri$', r'^parse_coord$', r'^parse_xstr$', r'^parse_date$', r'^parse_time$', r'^parse_datetime$']),
+        verus=[('u_getters', [r'^parse_ref$', r'^parse_symbol$', r'^parse_uri$', r'^parse_coord$', r'^parse_xstr$', r'^parse_date$', r'^parse_time$', r'^parse_datetime$', r'^parse_number$']),
                ('u_jenc', [r'::serialize$']),
                ('u_tz', [r'^is_utc$'])],
         kani=[dict(harness='k_json_visit_numbers', klass='complete', schema='raw', family='json-visit', target='JsonValueDecoderVisitor::visit_{i8..u64,f64}'),
@@ -134,7 +134,7 @@ PROPS = {
     ),
     'C05': dict(
         title='Hayson JSON conforms to the Project Haystack JSON encoding',
-        verus=[('u_getters', [r'^parse_ref$', r'^parse_symbol$', r'^parse_uri$', r'^parse_coord$', r'^parse_xstr$', r'^parse_date$', r'^parse_time$', r'^parse_datetime$', r'^Dict::get_str$', r'^Dict::get_num$']),
+        verus=[('u_getters', [r'^parse_ref$', r'^parse_symbol$', r'^parse_uri$', r'^parse_coord$', r'^parse_xstr$', r'^parse_date$', r'^parse_time$', r'^parse_datetime$', r'^parse_number$', r'^Dict::get_str$', r'^Dict::get_num$']),
                ('u_jenc', [r'::serialize$', r'^jv_']),
                ('u_jdec', [r'^JsonValueDecoderVisitor::visit_map$', r'^JsonValueDecoderVisitor::visit_seq$', r'^lemma_members_by_membership$', r'^lemma_kind_by_membership$', r'^lemma_no_kind$',
                            r'^lemma_perm_same_reading$', r'^lemma_object_members_in_any_order$'])],
@@ -160,7 +160,7 @@ PROPS = {
                     'values and member names of the Hayson table (typed into the harness from the specification), in a map of the stated size. '
                     'Reader side (Verus, real bodies): parse_ref / parse_symbol / parse_uri / parse_coord succeed exactly when the members the '
                     'table requires (val; lat and lng) are present with the right kind, and build the value from exactly those members (dis optional).'),
-        not_decided=('Reader side: the per-kind decoders behind visit_map other than ref/symbol/uri/coord are uninterpreted functions of the member map; objects with a repeated member name; parse_number (closures capturing the dict), parse_grid (iterator adapters); the chrono parsers behind parse_date/time/datetime are uninterpreted functions of the text (the decoders are proved to read the right members and, for dateTime, to use tz exactly when it is present); '
+        not_decided=('Reader side: the per-kind decoders behind visit_map other than ref/symbol/uri/coord are uninterpreted functions of the member map; objects with a repeated member name; parse_grid (iterator adapters with capturing closures); the chrono parsers behind parse_date/time/datetime are uninterpreted functions of the text (the decoders are proved to read the right members and, for dateTime, to use tz exactly when it is present); '
                      'Date/Time/DateTime text (chrono, uninterpreted); JSON number spellings and string escaping (serde_json); Number::serialize is '
                      'trusted in the Verus unit and decided by the Kani harnesses; the model serializer (what serialize_map / serialize_entry / '
                      'serialize_seq / end do) is an assumption about serde; Kani payload strings are concrete 2-byte strings.'),
@@ -218,7 +218,8 @@ PROPS = {
     'C15': dict(
         title='Every database unit is found by each of its names and survives both codecs',
         verus=[('u_units', [r'^lemma_units_table_chunk_', r'^lemma_unit_ids_bound_chunk_', r'^lemma_table_keys_are_ids_chunk_']),
-               ('u_zparse', [r'^parse_unit$', r'^is_unit_char$', r'^parse_number$'])],
+               ('u_zparse', [r'^parse_unit$', r'^is_unit_char$', r'^parse_number$']),
+               ('u_getters', [r'^parse_number$'])],
         kani=[dict(harness='k_unit_char_class', klass='complete', schema='raw', family='enum:units-roundtrip', target='zinc number::is_unit_char'),
               dict(harness='k_scanner_classes', klass='complete', schema=['u8'], family=None, target='Scanner::is_*')],
         witness='enum:units-roundtrip',
@@ -230,7 +231,7 @@ PROPS = {
                     'byte class itself is proved equal to the real is_unit_char over all 256 bytes (Kani, complete).'),
         not_decided=('HashMap::get returns the value inserted for an equal key and None otherwise (assumed: this is the whole of the third '
                      'sentence); lazy_static initialisation; the magnitudes (f64 text, C01); that parse_number hands exactly the text returned '
-                     'by parse_unit to get_unit (its body is proved panic-free and terminating only); the Hayson side looks up the unit member verbatim.'),
+                     'by parse_unit to get_unit (its body is proved panic-free and terminating only); on the Hayson side parse_number is proved to hand the unit member verbatim to get_unit and to fail when it names no unit.'),
         technique='contract-based deductive verification: Verus by(compute) lemmas over the mechanically extracted table + Kani complete byte-class harness',
     ),
     'C16': dict(
